@@ -48,6 +48,7 @@ Init(cfg) ==
      panicked |-> [c |-> FALSE, s |-> FALSE],
      resetS |-> {},          \* stream ids reset / abandoned by either application or by a RST_STREAM
      graceful |-> [c |-> FALSE, s |-> FALSE],            \* graceful_shutdown() was called
+     abrupt |-> [c |-> FALSE, s |-> FALSE],              \* abrupt_shutdown() was called
      goLast |-> [c |-> -1, s |-> -1],                   \* last-stream-id of the latest GOAWAY received
      firstEnd |-> [c |-> <<"", 0>>, s |-> <<"", 0>>],   \* first thing that ended the connection: <<kind, code>>
      v |-> <<>>, hits |-> EmptyMap]
@@ -307,6 +308,7 @@ GoAwayApi(a, e, l, ws) ==
     LET ep == e.ep IN
     IF ep \notin DOMAIN ws THEN a
     ELSE IF e.call = "graceful_shutdown" THEN [a EXCEPT !.graceful[ep] = TRUE]
+    ELSE IF e.call = "abrupt_shutdown" THEN [a EXCEPT !.abrupt[ep] = TRUE]
     ELSE IF e.call = "send_request" /\ e.res = "ok" /\ ws[ep].goInBound
     THEN Viol(Hit(a, "C15.no_request_after_goaway"), "C15.no_request_after_goaway", l, ep, e.sid, "send_request accepted after a GOAWAY had been received and processed")
     ELSE IF e.call = "send_request" /\ e.res = "err" /\ ws[ep].goInBound THEN Hit(a, "C15.no_request_after_goaway")
@@ -315,7 +317,12 @@ GoAwayApi(a, e, l, ws) ==
     THEN \* the connection's result reports the peer's error code
          \* (when the peer sent several GOAWAYs, reporting any of them is accepted - also a NO_ERROR one as success)
          Check(a, "C15.conn_result", \/ (e.res = "err" /\ e.e.kind = "goaway" /\ e.e.remote /\ <<"goaway", ErrCode(e.e)>> \in a.connCause[ep])
-                                     \/ (e.res = "ok" /\ <<"goaway", 0>> \in a.connCause[ep]),
+                                     \/ (e.res = "ok" /\ <<"goaway", 0>> \in a.connCause[ep])
+                                     \* E detected a connection error of its own in the same breath (e.g. its flood policy) and
+                                     \* announced it with a GOAWAY of that code: reporting its own error is right as well
+                                     \/ (e.res = "err" /\ e.e.kind = "goaway" /\ ~e.e.remote /\ ErrCode(e.e) # 0 /\ ws[ep].goOutCode = ErrCode(e.e))
+                                     \* the application then ended the connection itself with abrupt_shutdown(): documented to complete with Ok
+                                     \/ (e.res = "ok" /\ a.abrupt[ep]),
                l, ep, 0, <<e.res, e.e.kind, ErrCode(e.e), a.connCause[ep]>>)
     ELSE a
 
